@@ -342,8 +342,8 @@ fn check(property: &str, tier: &str, base_seed: u64, runs_override: Option<u64>)
     let m: u64 = if tier == "thorough" { 12 } else { 1 };
     // (stage name, faults, runs, stream)
     let stages: Vec<(&str, bool, u64, u64)> = match property {
-        "C15" => vec![("cli-fault-free", false, 400 * m, 21), ("cli-faults", true, 1100 * m, 22)],
-        "C12" => vec![("cli-process-environment", false, 160 * m, 23)],
+        "C15" => vec![("cli-fault-free", false, 900 * m, 21), ("cli-faults", true, 2200 * m, 22)],
+        "C12" => vec![("cli-process-environment", false, 320 * m, 23)],
         _ => {
             eprintln!("HARNESS: procsim has no check for {property}");
             return 2;
@@ -768,8 +768,8 @@ fn check_macro(property: &str, tier: &str, base_seed: u64, runs_override: Option
     let fixtures = fixture_corpus();
     let thorough = tier == "thorough";
     let (n, extra_n, stream): (u64, usize, u64) = match property {
-        "C15" => (if thorough { 1600 } else { 160 }, 1, 31),
-        _ => (if thorough { 900 } else { 96 }, 3, 32),
+        "C15" => (if thorough { 4000 } else { 480 }, 1, 31),
+        _ => (if thorough { 1600 } else { 160 }, 3, 32),
     };
     let n = runs_override.map(|r| std::cmp::max(8, r / 4)).unwrap_or(n);
     let known = report::load_known_findings();
